@@ -175,6 +175,10 @@ func (m *Machine) sprintf(format Value, args Value) Value {
 			if b.Info()&types.IsInteger == 0 {
 				return Poison{"fmt.Sprintf(" + f + ") with symbolic " + b.Name()}
 			}
+			if !m.Conf.FmtInts {
+				// formatting is not the subject (error messages): no digit-count forks
+				return Poison{"fmt.Sprintf(" + f + ") with symbolic integer (exact integer formatting not enabled for this property)"}
+			}
 			out = append(out, m.formatDec(p, b.Info()&types.IsUnsigned == 0)...)
 		default:
 			return Poison{"fmt.Sprintf(" + f + ") with unrenderable argument"}
